@@ -73,6 +73,10 @@ structure SerThread where
   mkStack : List (Option Nat)
   /-- `(i, v)`: marker `i` has a field of format "unique-string" with value `v` -/
   mkUstr : List (Nat × Nat)
+  /-- `startTime[i]` / `endTime[i]` is a number (not null); `phase[i]` -/
+  mkStart : List Bool := []
+  mkEnd : List Bool := []
+  mkPhase : List Nat := []
 deriving Repr
 
 structure SerCounter where
@@ -331,10 +335,10 @@ def serThread (p : P) (t : Thread) : Option SerThread :=
       saLen := nsa, saCols := [nsa, nsa, nsa, nsa], saStack := t.samples,
       na := t.allocs.map (fun st => (st.length, [st.length, st.length, st.length, st.length, st.length], st)),
       mkLen := nmk,
-      mkCols := [mk.cats.length, nmk, mk.times, mk.names.length, mk.times, mk.times],
+      mkCols := [mk.cats.length, nmk, mk.ends.length, mk.names.length, mk.phases.length, mk.starts.length],
       mkCat := mk.cats, mkName := mk.names,
       -- the data column has `len` entries: `marker_stacks[i]` is indexed for `i < len`
-      mkStack := mk.stacks, mkUstr := ustr }
+      mkStack := mk.stacks, mkUstr := ustr, mkStart := mk.starts, mkEnd := mk.ends, mkPhase := mk.phases }
   | _, _ => none
 
 def mapM' {α β : Type} (f : α → Option β) : List α → Option (List β)
